@@ -55,10 +55,24 @@ SPECS = {
                        skip=('errors.is_positive_integer(order)', 'errors.is_positive_integer(NFFT)',
                              'A, P, k = arburg(X, order - 1)', 'psi = fft(psi, NFFT)', 'PSD = sampling / np.real(psi)',
                              'return (PSD, A, k)')),
+    # T6: the thin wrappers; their calls of LEVINSON / CORRELATION / rlevinson / levup / aryule (functions of OTHER modules of the package, resolved
+    # through the module's imports) are translated from the callee's module text and embedded ([SCall] / [SCall1])
+    'aryule': dict(module='yulewalker'),
+    'ma': dict(module='arma'),
+    'ac2poly': dict(module='linear_prediction'),
+    'ac2rc': dict(module='linear_prediction'),
+    'poly2ac': dict(module='linear_prediction'),
+    'poly2rc': dict(module='linear_prediction'),
+    'ar2rc': dict(module='linear_prediction'),
+    'rc2poly': dict(module='linear_prediction'),
+    'rc2ac': dict(module='linear_prediction'),
 }
+# oracle calls of a function when it is translated as a CALLEE (its hidden oracle parameters become hidden parameters of the caller)
+CALLEE_ORACLES = {('correlation', 'CORRELATION'): ('pylab_rms_flat',)}
+PACKAGE = 'spectrum'
 
 EXC = {'ValueError': 'ValueError', 'AssertionError': 'AssertionError', 'IndexError': 'IndexError',
-       'ZeroDivisionError': 'ZeroDivisionError'}
+       'ZeroDivisionError': 'ZeroDivisionError', 'NotImplementedError': 'NotImplementedError'}
 BINOPS = {ast.Add: 'BAdd', ast.Sub: 'BSub', ast.Mult: 'BMul', ast.Div: 'BDiv', ast.FloorDiv: 'BFloorDiv', ast.Mod: 'BMod'}
 CMPOPS = {ast.Eq: 'CEq', ast.NotEq: 'CNe', ast.Lt: 'CLt', ast.LtE: 'CLe', ast.Gt: 'CGt', ast.GtE: 'CGe'}
 
@@ -93,10 +107,138 @@ class Program:
         return hashlib.sha1(self.coq().encode()).hexdigest()[:16]
 
 
+class Loader:
+    """the module texts of the package under translation: the snapshot's files, or (self-test, scratch edits) a dict {module: source}"""
+    def __init__(self, sources=None, only=False):
+        self.sources = dict(sources or {}); self.only = only; self.trees = {}
+
+    def tree(self, module, where=None):
+        if module not in self.trees:
+            if module in self.sources:
+                src = self.sources[module]
+            elif self.only or not re.fullmatch(r'[A-Za-z_][A-Za-z0-9_]*', module):
+                raise Untranslatable(where if where is not None else module, 'module %s of the package is not available' % module)
+            else:
+                try:
+                    src, _ = snapshot_source(module)
+                except OSError:
+                    raise Untranslatable(where if where is not None else module, 'module %s.py not found in the package' % module)
+            try:
+                self.trees[module] = ast.parse(src)
+            except SyntaxError:
+                raise Untranslatable(where if where is not None else module, 'module %s.py does not parse' % module)
+        return self.trees[module]
+
+    def star_exports(self, module, where, depth=0):
+        """the names `from .<module> import *` binds (None = cannot be enumerated)"""
+        tree = self.tree(module, where)
+        mentions = [n for n in ast.walk(tree) if isinstance(n, ast.Name) and n.id == '__all__']
+        if mentions:
+            asg = [n for n in tree.body if isinstance(n, ast.Assign) and len(n.targets) == 1 and isinstance(n.targets[0], ast.Name) and n.targets[0].id == '__all__']
+            if len(mentions) == 1 and len(asg) == 1 and isinstance(asg[0].value, (ast.List, ast.Tuple)) \
+                    and all(isinstance(x, ast.Constant) and isinstance(x.value, str) for x in asg[0].value.elts):
+                return {x.value for x in asg[0].value.elts}
+            return None
+        names = module_bound_names(tree, self, where, depth)
+        return None if names is None else {n for n in names if not n.startswith('_')}
+
+    def submodule_attribute_ok(self, module, where):
+        """the attribute <package>.<module> is the submodule: nothing that the package's __init__ executes rebinds that name"""
+        names = module_bound_names(self.tree('__init__', where), self, where, 0)
+        return names is not None and module not in names
+
+
+def package_module_of(n, alias=None):
+    """the submodule M of the package that `from .M import ..` / `from <package>.M import ..` names, else None"""
+    if isinstance(n, ast.ImportFrom):
+        if n.level == 1 and n.module and '.' not in n.module:
+            return n.module
+        if n.level == 0 and n.module and n.module.startswith(PACKAGE + '.') and n.module.count('.') == 1:
+            return n.module.split('.')[1]
+    return None
+
+
+def module_bound_names(tree, loader, where, depth):
+    """every name a module's top level may bind (over-approximation; None = cannot be enumerated)"""
+    if depth > 3:
+        return None
+    names = set()
+    for n in ast.walk(tree):
+        if isinstance(n, (ast.FunctionDef, ast.AsyncFunctionDef, ast.ClassDef)):
+            names.add(n.name)
+        elif isinstance(n, ast.Name) and isinstance(n.ctx, (ast.Store, ast.Del)):
+            names.add(n.id)
+        elif isinstance(n, ast.Global):
+            names.update(n.names)
+    for n in tree.body:             # imports executed at the top level (those inside function bodies bind locals only)
+        for m in ([] if isinstance(n, (ast.FunctionDef, ast.AsyncFunctionDef, ast.ClassDef)) else ast.walk(n)):
+            if isinstance(m, ast.Import):
+                for a in m.names:
+                    names.add(a.asname or a.name.split('.')[0])
+            elif isinstance(m, ast.ImportFrom):
+                for a in m.names:
+                    if a.name != '*':
+                        names.add(a.asname or a.name)
+                        continue
+                    sub = package_module_of(m)
+                    if sub is not None:
+                        ex = loader.star_exports(sub, where, depth + 1)
+                    elif m.level == 0 and m.module and m.module.split('.')[0] != PACKAGE:
+                        try:        # a star import of a module outside the package: exactly the names Python binds
+                            ext = __import__('importlib').import_module(m.module)
+                            ex = set(getattr(ext, '__all__', [k for k in vars(ext) if not k.startswith('_')]))
+                        except Exception:
+                            ex = None
+                    else:
+                        ex = None
+                    if ex is None:
+                        return None
+                    names |= ex
+    return names
+
+
+def name_bindings(tree, name):
+    """the top-level bindings of `name` in a parsed module: (kind, node, alias), kind in def / import / star / other"""
+    out = []
+    for n in tree.body:
+        if isinstance(n, (ast.FunctionDef, ast.AsyncFunctionDef, ast.ClassDef)):
+            if n.name == name:
+                out.append(('def' if isinstance(n, ast.FunctionDef) else 'other', n, None))
+            for m in ast.walk(n):
+                if isinstance(m, ast.Global) and name in m.names:
+                    out.append(('other', m, None))
+            continue
+        for m in ast.walk(n):
+            if isinstance(m, (ast.Import, ast.ImportFrom)):
+                for a in m.names:
+                    if a.name == '*':
+                        out.append(('star', m, a))
+                    elif (a.asname or a.name.split('.')[0]) == name:
+                        out.append(('import', m, a))
+            elif isinstance(m, ast.Name) and m.id == name and isinstance(m.ctx, (ast.Store, ast.Del)):
+                out.append(('other', m, None))
+            elif isinstance(m, (ast.FunctionDef, ast.AsyncFunctionDef, ast.ClassDef)) and m.name == name:
+                out.append(('other', m, None))
+    return out
+
+
+def return_arities(fn):
+    """the set of the numbers of values of the `return`s of a function (0 = falls off the end / bare return are NOT counted: [None])"""
+    out = set()
+    for n in ast.walk(fn):
+        if isinstance(n, ast.Return):
+            out.add(len(n.value.elts) if isinstance(n.value, ast.Tuple) else 1)
+    return out
+
+
 class FnTranslator:
-    def __init__(self, modtree, fn, spec, progname, stack=()):
+    def __init__(self, modtree, fn, spec, progname, stack=(), modname=None, loader=None):
         self.fn = fn; self.spec = spec; self.progname = progname
         self.modtree = modtree; self.stack = tuple(stack)      # functions being translated around this one (calls are embedded; no recursion)
+        self.modname = modname                                 # the module of the package this function lives in (None: a stand-alone text)
+        self.loader = loader                                   # gives the other modules of the package (None: calls of other modules are refused)
+        self.local_imports = {}                                # name -> (module, function): `from .M import f` at the head of the function body
+        self.tuple_vars = {}                                   # name -> slots of the values of the tuple a call returned (T6)
         self.np_names = set(); self.logging_names = set(); self.nodes = 0
         for n in modtree.body:
             if isinstance(n, ast.Import):
@@ -141,6 +283,16 @@ class FnTranslator:
         if fn.decorator_list or a.vararg or a.kwarg or a.kwonlyargs or a.posonlyargs:
             self.fail(fn, 'unsupported signature')
         body = list(fn.body)
+        if 'skip' in spec:      # translated by REGION: the statements named verbatim in the spec are not translated (they must be present, in order)
+            todo = list(spec['skip']); kept = []
+            for s in body:
+                if todo and ast.unparse(s) == todo[0]:
+                    todo.pop(0); continue
+                kept.append(s)
+            if todo:
+                self.fail(fn, 'statement expected verbatim by the region spec not found: %r' % todo[0])
+        else:
+            kept = body
         # names assigned anywhere (locals)
         self.assigned = set()
         for n in ast.walk(fn):
@@ -151,6 +303,8 @@ class FnTranslator:
             if isinstance(n, ast.ImportFrom):
                 if n.module == 'spectrum' and [x.name for x in n.names] == ['Criteria'] and n.names[0].asname is None:
                     self.crit_class.add('Criteria')
+                elif self.head_import(n):
+                    pass
                 else:
                     self.fail(n, 'import inside the function')
             if isinstance(n, ast.Import):
@@ -159,6 +313,7 @@ class FnTranslator:
             if isinstance(n, ast.Assign) and isinstance(n.value, ast.Call) and isinstance(n.value.func, ast.Name) \
                     and n.value.func.id in self.crit_class and len(n.targets) == 1 and isinstance(n.targets[0], ast.Name):
                 self.crit_objs.add(n.targets[0].id)
+        self.find_calls(kept)
         self.find_list_vars(fn)
         # names bound to a list display / comprehension somewhere: Python lists; `+`, `*`, `+=` on them concatenate / repeat, the IR's arrays do not
         self.display_vars = {t.id for n in ast.walk(fn) if isinstance(n, ast.Assign) and isinstance(n.value, (ast.List, ast.ListComp))
@@ -180,17 +335,17 @@ class FnTranslator:
                 key = '%s(%s)@%d' % (n.func.id, n.args[0].id, len(self.oracle_params))
                 n._oracle_slot = self.new_slot(key)
                 self.oracle_params.append(key); defaults.append(None)
+        # hidden oracle parameters of the embedded callees (CORRELATION's two pylab_rms_flat results inside aryule, ...): in order of the calls
+        for c in self.calls:
+            c._hidden = []
+            for key in c._callee.oracle_params:
+                k2 = '%s.%s#%d' % (c._callee.pyname, key, len(self.oracle_params))
+                c._hidden.append(self.new_slot(k2)); self.oracle_params.append(k2); defaults.append(None)
         self.params = params + self.oracle_params
+        self.oracle_params_only = list(self.oracle_params)
         self.check_aliasing(body, set(params))
         # body
         if 'skip' in spec:
-            todo = list(spec['skip']); kept = []
-            for s in body:
-                if todo and ast.unparse(s) == todo[0]:
-                    todo.pop(0); continue
-                kept.append(s)
-            if todo:
-                self.fail(fn, 'statement expected verbatim by the region spec not found: %r' % todo[0])
             stm = self.block(kept, top=True)
             res = self.lookup(spec['result'])
             if res is None:
@@ -198,7 +353,154 @@ class FnTranslator:
             stm = self.seq([stm, 'SReturn [EVar %d]' % res])
         else:
             stm = self.block(body, top=True)
-        return Program(self.progname, fn.name, self.params, defaults, dict(self.slots), stm, self.nodes)
+        prog = Program(self.progname, fn.name, self.params, defaults, dict(self.slots), stm, self.nodes)
+        prog.oracle_params = list(self.oracle_params); prog.nexplicit = len(params)
+        prog.param_names = list(params)
+        # positions of the returned tuple that may hold a 2-D array (a caller may bind them only to names it never reads)
+        prog.matrix_rets = {i for n in ast.walk(fn) if isinstance(n, ast.Return) and n.value is not None
+                            for i, el in enumerate(n.value.elts if isinstance(n.value, ast.Tuple) else [n.value])
+                            if isinstance(el, ast.Name) and el.id in self.matrix_vars}
+        prog.arities = return_arities(fn)
+        return prog
+
+    # ---------------------------------------------------------------- calls of other functions of the package (T5: same module; T6: any module)
+    def head_import(self, n):
+        """`from .M import f [as g], ..` / `from <package>.M import f` as a statement at the HEAD of the function body (only a docstring or
+        other such imports before it): the names are locals bound to functions of module M for the whole body.  Registers them."""
+        M = package_module_of(n)
+        if M is None or self.loader is None:
+            return False
+        head = []
+        for s in self.fn.body:
+            if isinstance(s, ast.Expr) and isinstance(s.value, ast.Constant) and isinstance(s.value.value, str):
+                continue
+            if isinstance(s, ast.ImportFrom):
+                head.append(s); continue
+            break
+        if not any(s is n for s in head):
+            return False
+        argnames = {x.arg for x in self.fn.args.args} | set(self.spec.get('params', ()))
+        for a in n.names:
+            g = a.asname or a.name
+            if a.name == '*' or g in self.local_imports or g in argnames or g in EXC or g in self.crit_class:
+                return False
+            # the imported name must be a function of M (else ImportError at run time) that M never rebinds
+            find_function(self.loader.tree(M, n), a.name, n, modname=M + '.py')
+            self.local_imports[g] = (M, a.name)
+        return True
+
+    def resolve_callee(self, f, where):
+        """(module, its tree, FunctionDef) if the call target `f` / `m.f` names a function of the package, resolved syntactically through the
+        imports; None if it is not a package function at all (builtin, numpy, method ...: the expression translator decides)"""
+        argnames = {x.arg for x in self.fn.args.args} | set(self.spec.get('params', ()))
+        if isinstance(f, ast.Name):
+            name = f.id
+            if name in self.local_imports:
+                if name in self.assigned:
+                    self.fail(where, 'a name imported inside the function is also assigned')
+                M, orig = self.local_imports[name]
+                tree = self.loader.tree(M, where)
+                return M, tree, find_function(tree, orig, where, modname=M + '.py')
+            if name in self.assigned or name in argnames or name in self.oracle_fns or name in self.crit_class or name in self.crit_objs or name in EXC:
+                return None
+            if any(isinstance(n, ast.FunctionDef) and n.name == name for n in self.modtree.body):
+                return self.modname, self.modtree, find_function(self.modtree, name, where)
+            b = name_bindings(self.modtree, name)
+            if not [x for x in b if x[0] != 'star']:
+                return None
+            if len(b) != 1 or b[0][0] != 'import' or self.loader is None:
+                self.fail(where, 'the callee %s is not bound exactly once, by an import of a function of the package' % name)
+            M = package_module_of(b[0][1])
+            if M is None:
+                return None          # imported from elsewhere (scipy, numpy.fft ...): not a package function
+            tree = self.loader.tree(M, where)
+            return M, tree, find_function(tree, b[0][2].name, where, modname=M + '.py')
+        if isinstance(f, ast.Attribute) and isinstance(f.value, ast.Name):
+            m = f.value.id
+            if m in self.assigned or m in argnames or m in self.np_names or m in self.logging_names or m in self.local_imports:
+                return None
+            b = name_bindings(self.modtree, m)
+            imp = [x for x in b if x[0] == 'import']
+            M = None
+            for kind, node, a in imp:
+                if isinstance(node, ast.Import) and a.name.startswith(PACKAGE + '.') and a.name.count('.') == 1 and a.asname == m:
+                    M = a.name.split('.')[1]                      # import <package>.M as m
+                elif isinstance(node, ast.ImportFrom) and ((node.level == 0 and node.module == PACKAGE) or (node.level == 1 and node.module is None)):
+                    M = a.name                                    # from <package> import M [as m]  /  from . import M [as m]
+            if M is None:
+                return None
+            if len(b) != 1 or self.loader is None:
+                self.fail(where, 'the module name %s is not bound exactly once' % m)
+            if not self.loader.submodule_attribute_ok(M, where):
+                self.fail(where, 'the attribute %s.%s of the package may be rebound by its __init__' % (PACKAGE, M))
+            tree = self.loader.tree(M, where)
+            return M, tree, find_function(tree, f.attr, where, modname=M + '.py')
+        return None
+
+    def find_calls(self, stmts):
+        """the calls of package functions, in source order: each callee is translated by this translator (its own slots, its own aliasing
+        pass) BEFORE the body, because its hidden oracle parameters become hidden parameters of this program.  A call may only be the whole
+        right-hand side of an assignment statement."""
+        self.calls = []
+        fn = self.fn
+        allnodes = [n for s in stmts for n in ast.walk(s)]
+        for n in allnodes:
+            for at in ('_callee', '_hidden', '_tuple_index'):
+                if hasattr(n, at):
+                    delattr(n, at)
+        cand = sorted((n for n in allnodes if isinstance(n, ast.Call)), key=lambda n: (n.lineno, n.col_offset))
+        rhs = {id(n.value) for n in allnodes if isinstance(n, ast.Assign) and len(n.targets) == 1}
+        for c in cand:
+            r = self.resolve_callee(c.func, c)
+            if r is None:
+                continue
+            if id(c) not in rhs:
+                self.fail(c, 'a call of a function of the package is not the whole right-hand side of an assignment')
+            M, tree, fndef = r
+            if fndef.name == self.fn.name or fndef.name in self.stack:
+                self.fail(c, 'recursive call')
+            spec = {}
+            if (M, fndef.name) in CALLEE_ORACLES:
+                spec = {'oracles': CALLEE_ORACLES[(M, fndef.name)]}
+            sub = FnTranslator(tree, fndef, spec, fndef.name, stack=self.stack + (self.fn.name,), modname=M, loader=self.loader)
+            c._callee = sub.translate()
+            self.calls.append(c)
+        # names bound to the TUPLE a call returns (`results = rlevinson(poly, efinal)` ... `results[0]`): locals bound only by such calls (all of
+        # the same arity n >= 2) and read only as `name[<int literal in -n..n-1>]`; the n values live in n slots
+        for n in allnodes:
+            if isinstance(n, ast.Assign) and len(n.targets) == 1 and isinstance(n.targets[0], ast.Name) and hasattr(n.value, '_callee'):
+                ar = n.value._callee.arities
+                if len(ar) == 1 and min(ar) >= 2:
+                    self.tuple_vars.setdefault(n.targets[0].id, set()).add(min(ar))
+                elif ar != {1}:
+                    self.fail(n, 'the callee does not return the same number of values on every path')
+        if not self.tuple_vars:
+            return
+        argnames = {x.arg for x in fn.args.args} | set(self.spec.get('params', ()))
+        ok_nodes = set()
+        for n in allnodes:
+            if isinstance(n, ast.Assign) and len(n.targets) == 1 and isinstance(n.targets[0], ast.Name) and hasattr(n.value, '_callee') \
+                    and n.targets[0].id in self.tuple_vars:
+                ok_nodes.add(id(n.targets[0]))
+            if isinstance(n, ast.Subscript) and isinstance(n.value, ast.Name) and n.value.id in self.tuple_vars and isinstance(n.ctx, ast.Load):
+                i = n.slice
+                if isinstance(i, ast.UnaryOp) and isinstance(i.op, ast.USub) and isinstance(i.operand, ast.Constant) and type(i.operand.value) is int:
+                    v = -i.operand.value
+                elif isinstance(i, ast.Constant) and type(i.value) is int:
+                    v = i.value
+                else:
+                    continue
+                ar = self.tuple_vars[n.value.id]
+                if len(ar) == 1 and -min(ar) <= v < min(ar):
+                    n._tuple_index = v % min(ar); ok_nodes.add(id(n.value))
+        for n in allnodes:
+            if isinstance(n, ast.Name) and n.id in self.tuple_vars:
+                if n.id in argnames or len(self.tuple_vars[n.id]) != 1:
+                    self.fail(n, 'a name bound to the tuple a call returns is a parameter / bound to tuples of different lengths')
+                if id(n) not in ok_nodes:
+                    self.fail(n, 'a name bound to the tuple a call returns may only be bound by such calls and read as name[<int literal>] (%s)' % n.id)
+        for nm in sorted(self.tuple_vars):
+            self.tuple_vars[nm] = min(self.tuple_vars[nm])
 
     def find_list_vars(self, fn):
         """Python lists that are appended to (`pbv = []` ... `pbv.append(pb)` ... `return ..., pbv`).  A name on which
@@ -342,7 +644,7 @@ class FnTranslator:
                             elif isinstance(el, ast.Subscript) and isinstance(el.value, ast.Name):
                                 mutate(s, el.value.id, shared)
                         if isinstance(s.value, ast.Call):      # the callee may return (views of) its array arguments
-                            for a in s.value.args:
+                            for a in list(s.value.args) + [k.value for k in s.value.keywords]:
                                 if not self.is_fresh(a):
                                     shared |= names(a)
                     # anything else is rejected by the statement translator
@@ -446,6 +748,8 @@ class FnTranslator:
                 return self.matrix_store(s, t)
             if isinstance(t, (ast.Tuple, ast.List)):
                 return self.call_assign(s, t)
+            if isinstance(t, ast.Name) and hasattr(s.value, '_callee'):
+                return self.call_assign_name(s, t)
             if isinstance(t, ast.Name):
                 if t.id in self.crit_objs:
                     if not (isinstance(s.value, ast.Call) and isinstance(s.value.func, ast.Name) and s.value.func.id in self.crit_class):
@@ -537,38 +841,66 @@ class FnTranslator:
             self.fail(s, 'index form')
         return 'SStore2 %d %s %s %s' % (x, self.expr(i), self.expr(j), self.expr(s.value))
 
+    def call_args(self, s, c, prog):
+        """the SCall argument list: one entry per parameter of the callee (positional arguments, then keyword arguments by name; an omitted
+        parameter must have a default and is [None]), followed by this program's hidden slots for the callee's oracle parameters.  SCall
+        evaluates the entries in PARAMETER order, Python evaluates the arguments in SOURCE order: keyword arguments must come in parameter order."""
+        if any(isinstance(a, ast.Starred) for a in c.args) or any(k.arg is None for k in c.keywords):
+            self.fail(s, 'starred arguments / **kwargs in a call')
+        n = prog.nexplicit
+        if len(c.args) > n:
+            self.fail(s, 'too many arguments')
+        args = [None] * n
+        for i, a in enumerate(c.args):
+            args[i] = self.expr(a)
+        last = len(c.args) - 1
+        for k in c.keywords:
+            if k.arg not in prog.param_names:
+                self.fail(s, 'unknown keyword argument %s' % k.arg)
+            i = prog.param_names.index(k.arg)
+            if args[i] is not None:
+                self.fail(s, 'argument %s given twice' % k.arg)
+            if i < last:
+                self.fail(s, 'keyword arguments not in the order of the parameters (evaluation order)')
+            last = i
+            args[i] = self.expr(k.value)
+        for i in range(n):
+            if args[i] is None and prog.defaults[i] is None:
+                self.fail(s, 'argument %s of the callee is missing' % prog.param_names[i])
+        return '; '.join([('None' if a is None else '(Some %s)' % a) for a in args] + ['(Some (EVar %d))' % h for h in c._hidden])
+
+    def call_head(self, s, c):
+        prog = c._callee
+        self.nodes += prog.nodes
+        return prog, (len(prog.params), '[' + '; '.join('None' if d is None else '(Some %s)' % d for d in prog.defaults) + ']', len(prog.slots), prog.body,
+                      self.call_args(s, c, prog))
+
+    def unread(self, name):
+        return not any(isinstance(n, ast.Name) and n.id == name and isinstance(n.ctx, ast.Load) for n in ast.walk(self.fn))
+
     def call_assign(self, s, t):
-        """[x, y[i], ..] = f(a, b, ..) for another function f of the same module: f is translated by this translator (its own slots, its own
-        aliasing pass) and embedded as an SCall; its n >= 2 results go to fresh slots, then the targets are assigned left to right."""
+        """[x, y[i], ..] = f(a, b, ..) for another function f of the package (same module: T5; another module, resolved through the imports:
+        T6): f is translated by this translator (its own slots, its own aliasing pass) and embedded as an SCall; its n >= 2 results go to fresh
+        slots, then the targets are assigned left to right."""
         c = s.value
         if len(t.elts) < 2:
             self.fail(s, 'unpacking into fewer than two targets')
-        if not (isinstance(c, ast.Call) and isinstance(c.func, ast.Name)):
-            self.fail(s, 'tuple assignment of something else than a call of a function of this module')
-        f = c.func.id
-        if f in self.assigned or f in self.oracle_fns or f in self.crit_class or f in self.crit_objs or f in EXC:
-            self.fail(s, 'call of a local / special name')
-        if c.keywords or any(isinstance(a, ast.Starred) for a in c.args):
-            self.fail(s, 'keyword / starred arguments in a call')
-        if f == self.fn.name or f in self.stack:
-            self.fail(s, 'recursive call')
-        fndef = find_function(self.modtree, f, s)
-        sub = FnTranslator(self.modtree, fndef, {}, f, stack=self.stack + (self.fn.name,))
-        prog = sub.translate()
-        if sub.matrix_vars:
-            self.fail(s, 'callee uses a 2-D array')
-        if len(c.args) > len(prog.params):
-            self.fail(s, 'too many arguments')
-        self.nodes += prog.nodes
-        args = [self.expr(a) for a in c.args]
+        if not (isinstance(c, ast.Call) and hasattr(c, '_callee')):
+            self.fail(s, 'tuple assignment of something else than a call of a function of the package')
+        f = c._callee.pyname
+        prog, parts = self.call_head(s, c)
+        if prog.arities != {len(t.elts)}:
+            self.fail(s, 'the callee does not return %d values on every path' % len(t.elts))
         tmps = [self.new_slot('%s@ret%d#%d' % (f, i, len(self.slots))) for i in range(len(t.elts))]
-        out = ['SCall [%s] %d %s %d\n(%s)\n[%s]' % ('; '.join('%d%%nat' % x for x in tmps), len(prog.params),
-                                                    '[' + '; '.join('None' if d is None else '(Some %s)' % d for d in prog.defaults) + ']', len(prog.slots), prog.body,
-                                                    '; '.join(['(Some %s)' % a for a in args] + ['None'] * (len(prog.params) - len(args))))]
-        for el, tmp in zip(t.elts, tmps):
+        out = ['SCall [%s] %d %s %d\n(%s)\n[%s]' % (('; '.join('%d%%nat' % x for x in tmps),) + parts)]
+        for i, (el, tmp) in enumerate(zip(t.elts, tmps)):
+            if i in prog.matrix_rets:
+                # a 2-D array result: no variable of this function may hold a matrix that is read by its 1-D operations: bind and never read
+                if not (isinstance(el, ast.Name) and self.unread(el.id) and el.id not in self.matrix_vars):
+                    self.fail(s, 'a 2-D array returned by the callee is bound to something that is read')
             if isinstance(el, ast.Name):
-                if el.id in self.matrix_vars or el.id in self.crit_objs or el.id in self.list_vars:
-                    self.fail(s, 'call result bound to a 2-D array / Criteria / list name')
+                if el.id in self.matrix_vars or el.id in self.crit_objs or el.id in self.list_vars or el.id in self.tuple_vars:
+                    self.fail(s, 'call result bound to a 2-D array / Criteria / list / tuple name')
                 out.append('SAssign %d (EVar %d)' % (self.slot_of_local(el.id), tmp))
             elif isinstance(el, ast.Subscript) and isinstance(el.value, ast.Name) and not isinstance(el.slice, (ast.Slice, ast.Tuple)):
                 x = self.lookup(el.value.id)
@@ -578,6 +910,31 @@ class FnTranslator:
             else:
                 self.fail(s, 'assignment target')
         return self.seq(out)
+
+    def call_assign_name(self, s, t):
+        """x = f(..) for a function f of the package.  f returns ONE value on every path: SCall1 binds it to x.  f returns a tuple of n >= 2 values on
+        every path: x is a tuple name (only ever read as x[<int literal>]); the n values go to the n slots of x."""
+        c = s.value
+        prog, parts = self.call_head(s, c)
+        if t.id in self.matrix_vars or t.id in self.crit_objs or t.id in self.list_vars:
+            self.fail(s, 'call result bound to a 2-D array / Criteria / list name')
+        if t.id in self.tuple_vars:
+            n = self.tuple_vars[t.id]
+            if prog.arities != {n}:
+                self.fail(s, 'the callee does not return %d values on every path' % n)
+            for i in prog.matrix_rets:
+                if any(isinstance(m, ast.Subscript) and isinstance(m.value, ast.Name) and m.value.id == t.id and getattr(m, '_tuple_index', None) == i
+                       for m in ast.walk(self.fn)):
+                    self.fail(s, 'a 2-D array returned by the callee is read')
+            slots = [self.lookup('%s@%d' % (t.id, i)) for i in range(n)]
+            if slots[0] is None:
+                slots = []
+                for i in range(n):
+                    x = self.new_slot('%s@%d' % (t.id, i)); self.scopes[0]['%s@%d' % (t.id, i)] = x; slots.append(x)
+            return 'SCall [%s] %d %s %d\n(%s)\n[%s]' % (('; '.join('%d%%nat' % x for x in slots),) + parts)
+        if prog.arities != {1} or prog.matrix_rets:
+            self.fail(s, 'the callee does not return exactly one (1-D / scalar) value on every path')
+        return 'SCall1 %d %d %s %d\n(%s)\n[%s]' % ((self.slot_of_local(t.id),) + parts)
 
     def is_int_promotion(self, s):
         """exactly `if <x>.dtype.kind in '<subset of iub>': <x> = <x>.astype(float)` for a local array <x> (no else):
@@ -686,6 +1043,8 @@ class FnTranslator:
                     self.fail(e, 'global name used as a value')
             if e.id in self.crit_objs:
                 self.fail(e, 'Criteria object used as a value')
+            if e.id in self.tuple_vars:
+                self.fail(e, 'tuple name used as a value')
             return '(EVar %d)' % s
         if isinstance(e, ast.BinOp):
             if isinstance(e.op, ast.Pow):
@@ -747,6 +1106,13 @@ class FnTranslator:
             return '(ECmp %s %s %s)' % (CMPOPS[type(op)], self.expr(l), self.expr(r))
         if isinstance(e, ast.Subscript) and isinstance(e.slice, ast.Tuple):
             return self.matrix_index(e)
+        if isinstance(e, ast.Subscript) and isinstance(e.value, ast.Name) and e.value.id in self.tuple_vars:
+            if not hasattr(e, '_tuple_index'):
+                self.fail(e, 'index of a tuple name')
+            x = self.lookup('%s@%d' % (e.value.id, e._tuple_index))
+            if x is None:       # read textually before the call that binds it
+                self.fail(e, 'tuple name read before it is bound')
+            return '(EVar %d)' % x
         if isinstance(e, ast.Subscript):
             a = self.expr(e.value)
             sl = e.slice
@@ -917,13 +1283,17 @@ def find_function(tree, fname, where=None, modname='the module'):
     return fns[0]
 
 
-def translate(name, source=None):
+def translate(name, source=None, sources=None):
+    """the IR program of SPECS[name], from the snapshot's text of its module (or `source`); the other modules of the package it calls into are
+    read from the snapshot too (or from `sources`: {module: text})"""
     spec = SPECS[name]
-    if source is None:
-        source, _ = snapshot_source(spec['module'])
-    tree = ast.parse(source)
+    src = dict(sources or {})
+    if source is not None:
+        src[spec['module']] = source
+    loader = Loader(src)
+    tree = loader.tree(spec['module'])
     fname = spec.get('function', name)
-    return FnTranslator(tree, find_function(tree, fname, modname=spec['module'] + '.py'), spec, name).translate()
+    return FnTranslator(tree, find_function(tree, fname, modname=spec['module'] + '.py'), spec, name, modname=spec['module'], loader=loader).translate()
 
 
 # ---------------------------------------------------------------- self-test of the fail-closed behaviour
@@ -1052,10 +1422,21 @@ SELFTEST2_BAD = [
     ('slice view of a matrix row, then store', "    kr = numpy.conj(U[0, 1:])", "    kr = U[0, 1:]\n    kr[0] = 2"),
     ('matrix passed to a call', "g(a, w[k])", "g(U, w[k])"),
     ('call of an unknown function', "g(a, w[k])", "h(a, w[k])"),
-    ('call with a keyword argument', "g(a, w[k])", "g(a, e=w[k])"),
+    ('call with an unknown keyword argument', "g(a, w[k])", "g(a, q=w[k])"),
+    ('call with an argument given twice', "g(a, w[k])", "g(a, w[k], e=1.)"),
+    ('call with keyword arguments out of parameter order', "g(a, w[k])", "g(e=w[k], a=a)"),
+    ('call with a missing argument', "g(a, w[k])", "g(e=w[k])"),
+    ('call with **kwargs', "g(a, w[k])", "g(a, **w)"),
     ('call with a starred argument', "g(a, w[k])", "g(*a)"),
     ('call with too many arguments', "g(a, w[k])", "g(a, w[k], 1)"),
-    ('call result bound to one name', "[a, w[k - 1]] = g(a, w[k])", "z = g(a, w[k])"),
+    ('tuple a call returns used as a value', "[a, w[k - 1]] = g(a, w[k])", "z = g(a, w[k])\n        y = z"),
+    ('tuple a call returns in arithmetic', "[a, w[k - 1]] = g(a, w[k])", "z = g(a, w[k])\n        y = z * 2"),
+    ('tuple a call returns indexed by a variable', "[a, w[k - 1]] = g(a, w[k])", "z = g(a, w[k])\n        y = z[k]"),
+    ('tuple a call returns indexed out of range', "[a, w[k - 1]] = g(a, w[k])", "z = g(a, w[k])\n        y = z[2]"),
+    ('tuple a call returns sliced', "[a, w[k - 1]] = g(a, w[k])", "z = g(a, w[k])\n        y = z[0:1]"),
+    ('tuple name rebound to an array', "[a, w[k - 1]] = g(a, w[k])", "z = g(a, w[k])\n        z = a"),
+    ('tuple name is a parameter', "[a, w[k - 1]] = g(a, w[k])", "e = g(a, w[k])"),
+    ('call as an expression statement', "[a, w[k - 1]] = g(a, w[k])", "g(a, w[k])"),
     ('call result unpacked into one target', "[a, w[k - 1]] = g(a, w[k])", "[a] = g(a, w[k])"),
     ('nested unpacking', "[a, w[k - 1]] = g(a, w[k])", "[a, [z, w[k - 1]]] = g(a, w[k])"),
     ('call result stored into a slice', "[a, w[k - 1]] = g(a, w[k])", "[a, w[0:1]] = g(a, w[k])"),
@@ -1064,7 +1445,7 @@ SELFTEST2_BAD = [
     ('recursive callee', "    b = a[1:]", "    [b, z] = g(a, e)"),
     ('callee stores into its parameter', "    b = a[1:]", "    a[0] = 1\n    b = a[1:]"),
     ('callee outside the accepted subset', "    c = None", "    c = None\n    while False:\n        pass"),
-    ('callee with a 2-D array', "    b = a[1:]", "    b = a[1:]\n    V = numpy.zeros((2, 2))"),
+    ('callee returns a 2-D array that the caller stores into an array', "    return b, c", "    V = numpy.zeros((2, 2))\n    return b, V"),
     ('callee rebound at module level', "def f(a, e):", "g = len\ndef f(a, e):"),
     ('store through a call result that may alias the argument', "        U[:, k] =", "        a[0] = 1\n        U[:, k] ="),
     ('zero-list repetition outside concatenate', "    U[0, 0] = 1", "    z = [0] * p\n    U[0, 0] = 1"),
@@ -1073,6 +1454,108 @@ SELFTEST2_BAD = [
     ('repetition of a float-zero list', "[0] * (p - k)", "[0.] * (p - k)"),
     ('abs without a square', "abs(a[0] ** 2)", "abs(a[0])"),
     ('abs of a cube', "abs(a[0] ** 2)", "abs(a[0] ** 3)"),
+]
+
+
+# T6 (the wrappers): calls of functions of OTHER modules of the package resolved through the imports, keyword / omitted arguments, a callee with
+# hidden oracle parameters, a call that returns one value, a name bound to the tuple a call returns, a function-level import, NotImplementedError
+SELFTEST3_OK = {
+    '__init__': """
+from .correlation import *
+from .modh import *
+from .modf import *
+""",
+    'correlation': """
+import numpy
+__all__ = ['CORRELATION']
+def pylab_rms_flat(a):
+    return 1
+def CORRELATION(x, m=None, norm='biased'):
+    x = numpy.array(x)
+    if norm == 'coeff':
+        x = x / pylab_rms_flat(x)
+    return x
+""",
+    'modh': """
+import numpy
+__all__ = ['h', 'h1']
+def h(a, e=None, flag=True):
+    U = numpy.zeros((2, 2))
+    U[0, 0] = a[0]
+    b = a[1:]
+    return b, U, e
+def h1(a, n=2):
+    b = a[0:n]
+    return b
+""",
+    'modf': """
+import numpy
+__all__ = ['f']
+from .modh import h, h1
+from spectrum.correlation import CORRELATION
+import spectrum.modh as mh
+from spectrum import modh
+def f(x, n, e=None):
+    from .modh import h1 as hh
+    r = CORRELATION(x, m=n)
+    b, V, c = h(r, flag=False)
+    t = mh.h(b, e)
+    d = modh.h1(t[0])
+    q = hh(d, 1)
+    if n <= 0:
+        raise NotImplementedError
+    return q, t[2], c
+""",
+}
+SELFTEST3_BAD = [           # (what, module, old, new)
+    ('unknown keyword argument (other module)', 'modf', "h(r, flag=False)", "h(r, flg=False)"),
+    ('argument given twice (other module)', 'modf', "h(r, flag=False)", "h(r, a=r)"),
+    ('keyword arguments out of parameter order (other module)', 'modf', "h(r, flag=False)", "h(flag=False, a=r)"),
+    ('missing argument (other module)', 'modf', "h(r, flag=False)", "h(flag=False)"),
+    ('**kwargs (other module)', 'modf', "h(r, flag=False)", "h(r, **x)"),
+    ('starred argument (other module)', 'modf', "h(r, flag=False)", "h(*r)"),
+    ('too many arguments (other module)', 'modf', "h(r, flag=False)", "h(r, None, False, 1)"),
+    ('tuple name used as a value', 'modf', "    d = modh.h1(t[0])", "    d = modh.h1(t[0])\n    z = t"),
+    ('tuple name indexed by a variable', 'modf', "modh.h1(t[0])", "modh.h1(t[n])"),
+    ('tuple name indexed out of range', 'modf', "t[2], c", "t[3], c"),
+    ('tuple name rebound', 'modf', "    d = modh.h1(t[0])", "    t = x\n    d = modh.h1(t[0])"),
+    ('tuple name sliced', 'modf', "modh.h1(t[0])", "modh.h1(t[0:1])"),
+    ('2-D component of a returned tuple is read', 'modf', "t[2], c", "t[1], c"),
+    ('2-D array returned by a callee bound to a name that is read', 'modf', "return q, t[2], c", "return q, t[2], V"),
+    ('2-D array returned by a callee stored into an array', 'modf', "b, V, c = h(", "b, x[0], c = h("),
+    ('tuple passed to a call', 'modf', "d = modh.h1(t[0])", "d = modh.h(t[0])"),
+    ('call inside an expression', 'modf', "q = hh(d, 1)", "q = hh(d, 1) * 2"),
+    ('call as an expression statement (other module)', 'modf', "    q = hh(d, 1)", "    hh(d, 1)\n    q = d"),
+    ('call inside a return', 'modf', "return q, t[2], c", "return hh(q), t[2], c"),
+    ('function that the module does not define', 'modf', "mh.h(b, e)", "mh.nothere(b, e)"),
+    ('module that the package does not have', 'modf', "import spectrum.modh as mh", "import spectrum.nomod as mh"),
+    ('module name rebound', 'modf', "import spectrum.modh as mh", "import spectrum.modh as mh\nmh = None"),
+    ('imported function rebound at module level', 'modf', "from .modh import h, h1", "from .modh import h, h1\nh = len"),
+    ('imported function rebound by a second import', 'modf', "from .modh import h, h1", "from .modh import h, h1\nfrom .correlation import CORRELATION as h"),
+    ('imported function rebound through a global declaration', 'modf', "def f(x, n, e=None):", "def zz():\n    global h\n    h = len\ndef f(x, n, e=None):"),
+    ('star import next to the imported function', 'modf', "from .modh import h, h1", "from .modh import h, h1\nfrom os.path import *"),
+    ('package attribute rebound by __init__', '__init__', "from .modf import *", "from .modf import *\nmodh = None"),
+    ('package attribute rebound by a star export', 'correlation', "__all__ = ['CORRELATION']", "__all__ = ['CORRELATION', 'modh']"),
+    ('package attribute rebound by a module without __all__', 'correlation', "__all__ = ['CORRELATION']\n", "def modh():\n    pass\n"),
+    ('function-level import after a statement', 'modf', "    from .modh import h1 as hh\n    r = CORRELATION(x, m=n)", "    r = CORRELATION(x, m=n)\n    from .modh import h1 as hh"),
+    ('function-level import from outside the package', 'modf', "    from .modh import h1 as hh", "    from os import getcwd as hh"),
+    ('function-level plain import', 'modf', "    from .modh import h1 as hh", "    from .modh import h1 as hh\n    import os"),
+    ('function-level import of a name that is assigned', 'modf', "    q = hh(d, 1)", "    q = hh(d, 1)\n    hh = 1"),
+    ('function-level import of a name the module does not define', 'modf', "    from .modh import h1 as hh", "    from .modh import h2 as hh"),
+    ('function-level star import', 'modf', "    from .modh import h1 as hh", "    from .modh import *"),
+    ('relative import of level 2', 'modf', "from .modh import h, h1", "from ..modh import h, h1"),
+    ('callee (other module) outside the accepted subset', 'modh', "    b = a[0:n]", "    b = a[0:n]\n    while False:\n        pass"),
+    ('callee (other module) stores into its parameter', 'modh', "    b = a[0:n]", "    a[0] = 1\n    b = a[0:n]"),
+    ('callee (other module) is decorated', 'modh', "def h1(a, n=2):", "@staticmethod\ndef h1(a, n=2):"),
+    ('callee (other module) defined twice', 'modh', "def h1(a, n=2):", "def h1(a):\n    return a\ndef h1(a, n=2):"),
+    ('recursion through another module', 'modh', "    b = a[0:n]\n", "    from .modf import f\n    b = a[0:n]\n    q, w, z = f(b, n)\n"),
+    ('callee returns different numbers of values', 'modh', "    return b, U, e", "    if flag:\n        return b\n    return b, U, e"),
+    ('one-value call of a callee that returns a 2-D array', 'modh', "    b = a[0:n]\n    return b", "    b = numpy.zeros((2, 2))\n    return b"),
+    ('store through a call result that may alias the argument (other module)', 'modf', "    t = mh.h(b, e)", "    b[0] = 1\n    t = mh.h(b, e)"),
+    ('store through a one-value call result', 'modf', "    q = hh(d, 1)", "    q = hh(d, 1)\n    q[0] = 1"),
+    ('unknown exception class raised', 'modf', "raise NotImplementedError", "raise KeyError"),
+    ('oracle of the callee called in an unexpected shape', 'correlation', "pylab_rms_flat(x)", "pylab_rms_flat(x, 1)"),
+    ('callee calls an unknown function', 'correlation', "x = numpy.array(x)", "x = numpy.array(other(x))"),
 ]
 
 
@@ -1087,12 +1570,28 @@ def translator_selftest():
     def tr2(src):
         tree = ast.parse(src)
         return FnTranslator(tree, find_function(tree, 'f'), spec, 'f').translate()
+    def tr3(srcs):
+        ld = Loader(srcs, only=True)
+        tree = ld.tree('modf')
+        return FnTranslator(tree, find_function(tree, 'f'), spec, 'f', modname='modf', loader=ld).translate()
     try:
         tr(SELFTEST_OK)
         tr2(SELFTEST2_OK)
+        p3 = tr3(SELFTEST3_OK)
+        if len(p3.oracle_params) != 1 or p3.body.count('SCall1 ') != 3 or p3.body.count('SCall [') != 2:
+            return ['base case 3: unexpected translation']
     except Untranslatable as e:
         return ['base case rejected: %s' % e]
     bad = []
+    for what, mod, old, new in SELFTEST3_BAD:
+        assert old in SELFTEST3_OK[mod], what
+        try:
+            tr3(dict(SELFTEST3_OK, **{mod: SELFTEST3_OK[mod].replace(old, new, 1)}))
+            bad.append(what)
+        except Untranslatable:
+            pass
+        except SyntaxError as e:     # pragma: no cover
+            bad.append('%s (self-test edit does not parse: %s)' % (what, e))
     for base, edits, run in ((SELFTEST_OK, SELFTEST_BAD, tr), (SELFTEST2_OK, SELFTEST2_BAD, tr2)):
         for what, old, new in edits:
             assert old in base, what
@@ -2139,7 +2638,7 @@ def loopir_tie(ctx, names):
     t0 = time.time()
     info = ctx.extra.setdefault('loopir', {})
     wrong = translator_selftest()
-    info['translator_selftest'] = {'edits_that_must_be_rejected': len(SELFTEST_BAD) + len(SELFTEST2_BAD), 'wrongly_accepted': wrong}
+    info['translator_selftest'] = {'edits_that_must_be_rejected': len(SELFTEST_BAD) + len(SELFTEST2_BAD) + len(SELFTEST3_BAD), 'wrongly_accepted': wrong}
     if wrong:
         ctx.broken.append({'theorem': 'loopir: translator self-test (fail-closed behaviour)', 'where': '_loopir.py', 'log': '; '.join(wrong)})
     progs = {}
